@@ -721,3 +721,112 @@ def merge_step(f, o):
     if loop.get("k") == "for" and loop.get("inc") is not None and r in ("next", "continue"):
         effect(loop["inc"])
     return state["adv1"], state["adv2"], state["out"]
+
+
+# ---- IT4i index form of the downward scan ---------------------------------------------------------------------------
+def check_reverse_index(f):
+    """`for (i = hi; i != 0; --i) use(x[i])` (or `while (i != 0) { use(x[i]); --i; }`) tests the index before the body and
+    steps after it: index 0 is never used. Reported unless the body reaches a neighbour (`i - 1`), steps before it uses,
+    or index 0 is handled behind the loop. Returns [(index name, loop stmt, handled)]."""
+    out = []
+    body = f.get("body")
+    if body is None:
+        return out
+    all_stmts = list(astx.walk_stmts(body))
+
+    def is_name(e, n):
+        return ref_name(e) == n
+
+    def zero(e):
+        e = astx.strip_casts(e)
+        if e is None:
+            return False
+        if astx.int_value(e) == 0:
+            return True
+        return e.get("k") in ("construct", "initlist") and not e.get("a")
+
+    for s0 in all_stmts:
+        if s0.get("k") not in ("for", "while") or s0.get("c") is None:
+            continue
+        idx = None
+        for op, l, r in atoms_of_cond(s0["c"], True):
+            for a, b, o in ((l, r, op), (r, l, {"<": ">", ">": "<", "<=": ">=", ">=": "<="}.get(op, op))):
+                if ref_name(a) and zero(b) and o in ("!=", ">"):
+                    # the test must read the plain index (not `i--`)
+                    idx = ref_name(a)
+        if idx is None:
+            continue
+        if any(x.get("k") == "un" and x["op"] in ("--", "++") and is_name(x["e"], idx) for x in astx.walk_expr(s0["c"])):
+            continue
+        inc = s0.get("inc")
+        dec_in_inc = inc is not None and any(x.get("k") == "un" and x["op"] == "--" and is_name(x["e"], idx) for x in astx.walk_expr(inc))
+        body_exprs = list(astx.walk_stmt_exprs(s0.get("body"), into_lambdas=True))
+        if any(x.get("k") == "un" and x["op"] == "++" and is_name(x["e"], idx) for x in body_exprs):
+            continue
+        if any(x.get("k") == "bin" and x["op"] in ("=", "+=", "-=", ">>=", "/=") and is_name(x["l"], idx) for x in body_exprs):
+            continue        # not a unit-step scan
+        first_use = first_dec = None
+        for i, x in enumerate(body_exprs):
+            used = False
+            if x.get("k") == "idx" and any(is_name(y, idx) for y in astx.walk_expr(x.get("i") if x.get("i") is not None else x.get("r"))):
+                used = True
+            if x.get("k") == "call" and any(is_name(a, idx) for a in x["a"]):
+                used = True
+            if x.get("k") == "bin" and x["op"] == "+" and (is_name(x["l"], idx) or is_name(x["r"], idx)):
+                used = True
+            if used and first_use is None:
+                first_use = i
+            if first_dec is None and x.get("k") == "un" and x["op"] == "--" and is_name(x["e"], idx):
+                first_dec = i
+        if first_use is None:
+            continue
+        if not dec_in_inc and first_dec is None:
+            continue
+        if first_dec is not None and first_dec < first_use:
+            continue
+        if any(x.get("k") == "bin" and x["op"] == "-" and is_name(x["l"], idx) for x in body_exprs):
+            continue            # reaches i - 1
+        pos = all_stmts.index(s0)
+        inner = set(id(t) for t in astx.walk_stmts(s0))
+        later = [t for t in all_stmts[pos + 1:] if id(t) not in inner]
+        handled = False
+        for t in later:
+            for e in astx.stmt_exprs(t):
+                for x in astx.walk_expr(e, into_lambdas=True):
+                    if x.get("k") == "idx" and zero(x.get("i") if x.get("i") is not None else x.get("r")):
+                        handled = True
+                    if x.get("k") == "call" and (astx.callee(x)[0] in ("front", "begin", "data") or any(zero(a) for a in x["a"])):
+                        handled = True
+                    if is_name(x, idx):
+                        handled = True      # the index is consulted again behind the loop (it is 0 there)
+        out.append((idx, s0, handled))
+    return out
+
+
+_FIX_CACHE = {}
+
+
+def reverse_index_area(chk, db, prefixes, rule="IT4i"):
+    """IT4i over every function of the area; positive control from fixtures/iter_pos.hpp (the expected count is zero)."""
+    import os
+    from .. import db as D
+    n = 0
+    for f in db.funcs:
+        if f.get("body") is None or not any(f["file"].startswith(p) for p in prefixes):
+            continue
+        for idx, s0, handled in check_reverse_index(f):
+            n += 1
+            label = "%s :: downward scan over `%s` at line %s" % (astx.sig(f), idx, s0.get("line"))
+            chk.instance(rule)
+            chk.obligation(rule, label, handled)
+            if not handled:
+                chk.violation(rule, label, "first-element-skipped", "%s: the loop tests `%s` against 0 before each use and steps after it, so "
+                              "index 0 is never looked at and nothing behind the loop handles it" % (astx.loc(f, s0), idx), {"where": astx.loc(f)})
+    fixture = os.path.join(D.VERIF, "fixtures", "iter_pos.hpp")
+    if "fx" not in _FIX_CACHE:
+        _FIX_CACHE["fx"] = D.load_source('#include "%s"\n' % fixture, root=os.path.dirname(fixture) + "/", tag="fixture-iter")
+    fxf = dict((g["n"], g) for g in _FIX_CACHE["fx"].funcs)
+    r = check_reverse_index(fxf["last_not_space"]) if "last_not_space" in fxf else []
+    if not any(not h for _i, _s, h in r):
+        chk.analysis_broken("%s: the positive control fixture::last_not_space was not reported" % rule)
+    return n
